@@ -20,6 +20,10 @@ CHECKS = {
   "text": "Seeded search over schedules x client programs x executor stacks; the scheduler itself decides deadlock (wait-for cycle among lock waiters, lock held forever by a thread that is blocked forever, busy-wait livelock holding a lock), so every explored execution is decided exactly; unexplored interleavings are not covered.",
   "note": "Simulated Lock/RLock/Condition/Event/Semaphore/SimpleQueue/Thread mirror CPython 3.12 semantics; line-granular pre-emption under the GIL; nested code only submits; shutdown from one thread.",
   "design": "10 (C04), 3, 5"},
+ "C06": {
+  "text": "Seeded search over stacks (spy delegate / real pool) and f_* combinators with cancel() issued 1-3 times from 1-2 threads at drawn points of each future's life x schedules (line-level pre-emption puts cancels inside hand-over windows). History oracles: nothing starts or is re-submitted after a True cancel, False while running then normal completion, no RetryExecutor re-submission after any cancel() returned, forwarding to the innermost pending work (spy records), never through f_nocancel.",
+  "note": "Instance-level submit taps and spy futures observe hand-overs; a harness-side probe on ThrottleFuture._set_delegate only refines the signature of known finding F12; poll-stage cancels may succeed after the callable finished.",
+  "design": "10 (C06)"},
 }
 def main():
     checks = []
